@@ -607,9 +607,8 @@ func c23Qual(toks []c23Tok, cd *c23Cand, mod int, extra bool) string {
 			hasSS = true
 		}
 	}
+	typeMod := mod == c23MTypeDir || mod == c23MTypeRegular
 	switch {
-	case (mod == c23MTypeDir || mod == c23MTypeRegular) && cd.kind == c23Link:
-		return "type-of-symlink"
 	case mod == c23MButA && cd.text == "a":
 		return "but"
 	case extra && cd.hidden:
@@ -618,13 +617,15 @@ func c23Qual(toks []c23Tok, cd *c23Cand, mod int, extra bool) string {
 		return "restricted-star"
 	case cd.hidden:
 		return "hidden"
+	case typeMod && cd.kind == c23Link:
+		return "type-of-symlink"
 	case cd.symAt >= 0:
 		return "through-symlink"
 	case hasSS:
 		return "starstar"
 	case cd.trailing:
 		return "trailing-slash"
-	case mod == c23MTypeDir || mod == c23MTypeRegular:
+	case typeMod:
 		return "type"
 	}
 	return "plain"
@@ -829,7 +830,7 @@ func c23Outcls(st []int8, o *c23Outcome) string {
 	return c
 }
 
-type c23Plan struct{ api, elv, mods, abs bool }
+type c23Plan struct{ api, text, elv, mods, abs bool }
 
 // one (tree, pattern): every way of expanding it that the plan asks for
 func (w *c23Worker) doPattern(tr *c23Tree, root string, p *c23Pat, plan c23Plan, order int64) {
@@ -855,7 +856,7 @@ func (w *c23Worker) doPattern(tr *c23Tree, root string, p *c23Pat, plan c23Plan,
 	}
 	if plan.api {
 		check("glob.Pattern.Glob", "segments "+p.tokText(), p.toks, st, c23MNone, "", w.runGlob(glob.Pattern{Segments: p.segs}), 0)
-		if p.globText {
+		if p.globText && plan.text {
 			var o c23Outcome
 			if pan := vk.Try(func() {
 				glob.Glob(p.text, func(pi glob.PathInfo) bool { o.got = append(o.got, pi.Path); return true })
@@ -1118,11 +1119,11 @@ func TestVerifC23(t *testing.T) {
 
 		c.Rule(fmt.Sprintf("trees: every directory tree with <=%d entries (depth <=3) over the names %q, each entry a file, a directory or a symlink to a directory holding %q, plus %d fixed larger trees (depth 4, unicode/space/metacharacter/digit/upper-case names); "+
 			"patterns: every sequence of 1..%d tokens over %d tokens {a b . / ? * ** *[match-hidden] ?[set:a] *[range:a-b] **[match-hidden] *[set:b]} not starting with / and without // (%d patterns) plus %d matcher-variety patterns (?,*,** x %d set/range/class/match-hidden chains x 7 contexts); "+
-			"each (tree, pattern) is expanded in the tree as cwd by glob.Pattern.Glob on directly built segments, by glob.Glob on the text when it has no modifiers, with an absolute directory prefix (<=2 tokens), and as an elvish `put <pattern>` (trees of <=2 entries and fixed trees: <=%d tokens, and <=%d tokens with each of nomatch-ok, but:a, type:dir, type:regular on each wildcard; 3-entry trees: <=%d / <=%d tokens); "+
-			"re-evaluation: for every unmodified pattern of <=%d tokens, `for m [seq] { try { put [P[$m]] } catch e { put $e } }` for every sequence of 2..3 modifiers over %q (%d sequences), each iteration judged as the pattern with that modifier alone; "+
+			"each (tree, pattern) is expanded in the tree as cwd by glob.Pattern.Glob on directly built segments, by glob.Glob on the text when it has no modifiers (trees of <=2 entries and fixed trees), with an absolute directory prefix (<=2 tokens, same trees), and as an elvish `put <pattern>` (trees of <=2 entries and fixed trees: <=%d tokens, and <=%d tokens with each of nomatch-ok, but:a, type:dir, type:regular on each wildcard; 3-entry trees: <=%d / <=%d tokens); "+
+			"re-evaluation (trees of <=1 entry and fixed trees: unmodified patterns of <=%d tokens; trees of <=%d entries: <=2 tokens): `for m [seq] { try { put [P[$m]] } catch e { put $e } }` with $m on the first wildcard, for every sequence of 2..3 modifiers over %q (%d sequences), each iteration judged as the pattern with that modifier alone; "+
 			"class = (expansion route, token-kind sequence, global modifier, size class of the expected set / no-match)",
 			maxEntries, c23Names, c23TargetKids, len(c23Rich), maxLen, len(c23Alpha), nMain, len(pats)-nMain, len(c23Chains),
-			elvLenSmall, modLenSmall, elvLenLarge, modLenLarge, seqLen, c23SeqMods, len(seqs)))
+			elvLenSmall, modLenSmall, elvLenLarge, modLenLarge, seqLen, seqEntries, c23SeqMods, len(seqs)))
 		c.Assume("reference matcher written from website/ref/language.md 'Wildcard expansion'; result order is not judged (sets are compared, duplicates are violations)",
 			"not judged (counted in not_judged_*): a pattern element that is exactly . or ..; a component starting with . whose start coincides with a wildcard without match-hidden that matches none of its characters (e.g. *.a vs .a); traversing a symlink to a directory by a non-literal pattern element; ** with a character matcher crossing /; but:a for a path that merely ends in /a",
 			"a pattern ending in / is taken to match directories only, written with the final /; wildcards are taken never to produce the entries . and ..",
@@ -1172,8 +1173,8 @@ func TestVerifC23(t *testing.T) {
 							return
 						}
 						if j >= len(pats) {
-							if tr.size <= seqEntries || tr.rich {
-								p := seqPats[j-len(pats)]
+							p := seqPats[j-len(pats)]
+							if tr.size <= 1 || tr.rich || (tr.size <= seqEntries && len(p.toks) <= 2) {
 								w.l.Begin(tr.desc + " reevaluation " + p.text)
 								w.doSeqs(tr, p, seqs, int64(j))
 								w.l.End()
@@ -1187,9 +1188,9 @@ func TestVerifC23(t *testing.T) {
 							if !small {
 								continue
 							}
-							plan = c23Plan{api: true, elv: true}
+							plan = c23Plan{api: true, text: true, elv: true}
 						} else if small {
-							plan = c23Plan{api: true, elv: n <= elvLenSmall, mods: n <= modLenSmall, abs: n <= 2}
+							plan = c23Plan{api: true, text: true, elv: n <= elvLenSmall, mods: n <= modLenSmall, abs: n <= 2}
 						} else {
 							plan = c23Plan{api: true, elv: n <= elvLenLarge, mods: n <= modLenLarge, abs: false}
 						}
